@@ -140,6 +140,9 @@ def run(R, tier, seed, driver_ok):
         # the property's quantifier: max_proj large enough for the projections of the first cycle to converge
         m0 = re.search(r'mmc iter: 0, conv = \S+, projections = (\d+)', buf.getvalue())
         first_cycle_converged = (m0 is None) or int(m0.group(1)) < est.max_proj
+        if first_cycle_converged and m0 is None and not special:
+            # no iteration line was printed (the loop left at cycle 0): decide by re-running the projection of cycle 0
+            first_cycle_converged = first_cycle(A0, S, t, max_proj)
         if special:
             first_cycle_converged = first_cycle(A0, S, t, max_proj)
             R.count('small-max_proj:first-cycle-converged' if first_cycle_converged else 'small-max_proj:first-cycle-not-converged')
